@@ -20,6 +20,11 @@ let () =
          print_string (string_of_int (List.length l));
          List.iter (fun x -> print_char ' '; print_string (string_of_int (int_of_n x))) l;
          print_newline ()
+       | ["rawgen"; a; p] ->
+         let l = ip_gen_raw (n_of_int (int_of_string a)) (n_of_int (int_of_string p)) in
+         print_string (string_of_int (List.length l));
+         List.iter (fun x -> print_char ' '; print_string (string_of_int (int_of_n x))) l;
+         print_newline ()
        | ["sum"; a; p] ->
          let l = ip_gen (n_of_int (int_of_string a)) (n_of_int (int_of_string p)) in
          let (cnt, first, last, xs) = List.fold_left (fun (c, f, _, acc) x ->
